@@ -334,12 +334,11 @@ def check_case(case):
     else:
         fn = entry.func
     np.random.seed(case['seed'])
-    wd = entry.spec.get('_watchdog')
+    # iterative routines (rescale, non-negative least squares, optimisers) may legitimately fail
+    # to converge: abort -> inconclusive, never a verdict
+    wd = entry.spec.get('_watchdog', 60)
     with contextlib.redirect_stdout(io.StringIO()):      # some routines print progress
-        if wd:
-            with core.watchdog(wd):
-                result = core.lib(fn, *pos, **kw)
-        else:
+        with core.watchdog(wd):
             result = core.lib(fn, *pos, **kw)
 
     # (A) arguments unchanged bit for bit
